@@ -177,7 +177,18 @@ func (c *RC) prefixCheck(r *RuleResult, fn *FuncInfo, what string, adm func(s *S
 		return
 	}
 	n := 0
-	for _, s := range c.A.FnSites[fn] {
+	// the handler is walked with its single-caller helpers inline: a helper that holds the admission guards, or an
+	// effect behind them, is judged with the facts of the whole path
+	rec := c.inlineSites(fn, false)
+	sites := append([]*Site{}, rec.FnSites[fn]...)
+	inlined := map[*FuncInfo]bool{}
+	for _, g := range c.Prog.sortedFuncs() {
+		if g != fn && len(rec.FnSites[g]) > 0 {
+			inlined[g] = true
+			sites = append(sites, rec.FnSites[g]...)
+		}
+	}
+	for _, s := range sites {
 		isEffect := false
 		switch s.Kind {
 		case "write":
@@ -185,6 +196,9 @@ func (c *RC) prefixCheck(r *RuleResult, fn *FuncInfo, what string, adm func(s *S
 		case "call":
 			_, cb := effectCallbacks[s.Callee]
 			isEffect = cb || s.Callee == "cb:Broadcast" || c.effectfulCall(s)
+			if s.Target != nil && inlined[s.Target] {
+				isEffect = false // its own sites are in the list
+			}
 		}
 		if !isEffect || (skip != nil && skip(s)) {
 			continue
@@ -209,9 +223,9 @@ func (c *RC) prefixCheck(r *RuleResult, fn *FuncInfo, what string, adm func(s *S
 			bad = "path {" + sn.Trail + "} counterexample " + cexString(cex)
 		}
 		if bad == "" {
-			r.ok(fmt.Sprintf("%s@%s [%s] is behind the admission of %s", fn.Name, c.Prog.Pos(s.Node), siteWhat(s), what))
+			r.ok(fmt.Sprintf("%s@%s [%s] is behind the admission of %s", s.Fn.Name, c.Prog.Pos(s.Node), siteWhat(s), what))
 		} else {
-			r.fail(fn.Name+"/prefix:"+siteWhat(s), c.Prog.Pos(s.Node), "effect "+siteWhat(s)+" is reachable before the admission check of "+what+" ("+g.String()+"): "+bad)
+			r.fail(s.Fn.Name+"/prefix:"+siteWhat(s), c.Prog.Pos(s.Node), "effect "+siteWhat(s)+" is reachable before the admission check of "+what+" ("+g.String()+"): "+bad)
 		}
 	}
 	if n == 0 {
